@@ -297,11 +297,21 @@ pub fn path_of(rng: &mut Rng, o: Opts, k: PathKind) -> String {
         PathKind::Absolute => {
             if rng.chance(1, 6) {
                 "/".to_string()
+            } else if rng.chance(1, 10) {
+                // the shielded spelling of a path whose first segment is empty
+                format!("/./{}{}", rng.pick(&["/", "/a", "/a:b", "/h:p", "/a@b@c"]), rest)
             } else {
                 format!("/{}{}", segment(rng, o, true, false), rest)
             }
         }
-        PathKind::NoScheme => format!("{}{}", segment(rng, o, true, true), rest),
+        PathKind::NoScheme => {
+            if rng.chance(1, 10) {
+                // the shielded spelling of a relative path whose first segment contains ':' or is empty
+                format!("./{}{}", rng.pick(&["a:b", ":", "1:x", "", "h:p"]), rest)
+            } else {
+                format!("{}{}", segment(rng, o, true, true), rest)
+            }
+        }
         PathKind::Rootless => format!("{}{}", segment(rng, o, true, false), rest),
     }
 }
